@@ -50,7 +50,7 @@ def gen_pixel(rng, dtype, n=None):
         x = np.minimum(np.round(x), 32000)
     elif rng.random() < 0.3:
         x = np.round(x, int(rng.integers(0, 3)))  # ties in float data
-    nodata = float(rng.choice([-9999, -1, 32767])) if dtype == "int16" else float(rng.choice([-9999, -1, 32767]))  # must be representable in the int16 output
+    nodata = float(rng.choice([-9999, -1, 32767, 0]))  # must be representable in the int16 output
     x = np.where(x == nodata, x - 1, x)
     # zero inflation
     mode = rng.integers(0, 5)
